@@ -463,6 +463,7 @@ void destruct_range_impl(Iterator first, Iterator last,
         >::value
     >::type* /*ptr*/ = 0)
 {
+    using value_t = typename std::iterator_traits<Iterator>::value_type;
     while (first != last)
     {
         first->~value_t();
